@@ -173,6 +173,8 @@ def m_unpackb(it, data, ext_hook=None, use_list=True, raw=False, unicode_errors=
 
 def _m_unpackb(it, data, ext_hook=None, use_list=True, raw=False, unicode_errors="strict", **kw):
     data = it.unbase(data)
+    if isinstance(data, memoryview):
+        data = bytes(data)
     if isinstance(data, MPTrunc):
         note("msgpack-prefix-free", "no proper prefix of a msgpack encoding is itself a complete encoding: unpackb of a truncated value raises ValueError (incomplete input), never returns a value")
         raise PyRaise(ValueError("Unpack failed: incomplete input"))
